@@ -373,7 +373,7 @@ func runC16(d *RunDesc, res *RunResult) {
 		res.addViolation("deadlock", "every unfinished task is blocked", -1, -1)
 	}
 	if cr.Budget {
-		res.Trouble = "yield budget exceeded"
+		res.Stats.count("yield-budget-exceeded") // informational; a real endless loop ends in the watchdog
 	}
 	// oracle 2: equals sequential
 	for t := 0; t < nT; t++ {
